@@ -571,6 +571,7 @@ func sortedStrings(a []string) bool { for i := 1; i < len(a); i++ { if a[i-1] > 
 func permOf[T any](a, b []T) bool { panic("not executable: permOf") }
 func fst[A, B any](a A, b B) A { return a }
 func snd[A, B any](a A, b B) B { return b }
+func reached(site string) bool { panic("not executable: reached") }
 `
 
 func execSynth(src string) string {
